@@ -184,6 +184,8 @@ pub struct StreamSpec {
     pub respond_delay: u32,
     /// the server handler answers only once the scenario gate is open (raw scripts)
     pub respond_gate: bool,
+    /// the client issues the request only once the scenario gate is open (raw scripts)
+    pub start_gate: bool,
 }
 
 impl StreamSpec {
@@ -711,6 +713,7 @@ fn gen_stream(rng: &mut Rng, idx: u32, o: &GenOpts, push_ok: bool, n_clones: usi
         start_delay: rng.range(0, 6) as u32,
         respond_delay: if rng.chance(1, 4) { rng.range(1, 40) as u32 } else { 0 },
         respond_gate: false,
+        start_gate: false,
     }
 }
 
@@ -808,6 +811,18 @@ pub fn generate(seed: u64, o: &GenOpts) -> Scenario {
             after_yields: rng.range(0, 60) as u32,
             kind,
         });
+    }
+    if focus == Focus::Shutdown && rng.chance(2, 3) && !conn_ops.iter().any(|c| matches!(c.kind, ConnOpKind::GracefulShutdown | ConnOpKind::AbruptShutdown(_) | ConnOpKind::DropConn)) {
+        // the shutdown focus is about graceful shutdown: have one in most scenarios, often with user pings of
+        // either side in flight around it (their acknowledgements interleave with the shutdown PING's)
+        let at = rng.range(0, 60) as u32;
+        conn_ops.push(ConnOp { side_server: true, after_yields: at, kind: ConnOpKind::GracefulShutdown });
+        if rng.chance(1, 2) {
+            conn_ops.push(ConnOp { side_server: true, after_yields: at.saturating_sub(rng.range(0, 12) as u32), kind: ConnOpKind::Ping });
+        }
+        if rng.chance(1, 3) {
+            conn_ops.push(ConnOp { side_server: false, after_yields: at.saturating_sub(rng.range(0, 4) as u32) + rng.range(0, 3) as u32, kind: ConnOpKind::Ping });
+        }
     }
     let mut faults = Vec::new();
     if !o.coop && rng.chance(1, 4) {
